@@ -6,6 +6,8 @@ only="$@"
 for d in seeded/*/; do
   name=$(basename $d)
   [ -f $d/patch.diff ] || continue
+  # resume: skip seeds whose detection.log is complete unless FORCE=1
+  if [ -z "$FORCE" ] && grep -q "exit=" $d/detection.log 2>/dev/null; then continue; fi
   if [ -n "$only" ] && ! echo " $only " | grep -q " $name "; then continue; fi
   checks=$(python3 - "$name" <<'PY'
 import json,sys,re
